@@ -595,3 +595,43 @@ def fill_cpp(stack, fieldvar):
             out.append("{ static const double sz[] = {%s}; vp::fill_model<typename %s::non_owning_data_t, %d, %d, %s>(typename %s::non_owning_data_t(%s), sz); }" % (
                 sizes, stack.cpp_type(idx), L.k.n, L.k.m, L.k.in_t, stack.cpp_type(idx), chain))
     return "\n  ".join(out)
+
+
+# ---------------------------------------------------------------------------
+# sizeof pre-pass: ask the compiler of the tree under test for the real view sizes (the Python model above only predicts them)
+
+def filter_by_real_view_size(ctx, stacks, header, limit=256, per_tu=150):
+    """Returns (kept, dropped): stacks whose non_owning_data_t really fits field_view's limit on the current tree.
+    Falls back to the size model for stacks whose size could not be obtained."""
+    import os, subprocess
+    tus = []
+    for b in range(0, len(stacks), per_tu):
+        chunk = stacks[b:b + per_tu]
+        p = os.path.join(ctx.build, "sizeof_%04d.cpp" % (b // per_tu))
+        with open(p, "w") as fh:
+            fh.write(header + "#include <cstdio>\nint main() {\n")
+            for j, s in enumerate(chunk):
+                fh.write("  std::printf(\"%d %%zu\\n\", sizeof(typename %s::non_owning_data_t));\n" % (b + j, s.cpp_type()))
+            fh.write("  return 0;\n}\n")
+        tus.append((p, b, chunk))
+
+    def one(x):
+        p, b, chunk = x
+        exe = p[:-4]
+        ok, log = ctx.compile(p, exe, ["-O0", "-w", "-mbmi2"])
+        if not ok:
+            return {}
+        out = subprocess.run([exe], capture_output=True, text=True).stdout
+        return {int(l.split()[0]): int(l.split()[1]) for l in out.splitlines() if len(l.split()) == 2}
+    sizes = {}
+    for d in ctx.parallel(one, tus):
+        sizes.update(d)
+    kept, dropped = [], 0
+    for i, s in enumerate(stacks):
+        real = sizes.get(i)
+        fits = (real <= limit) if real is not None else view_fits(s)
+        if fits:
+            kept.append(s)
+        else:
+            dropped += 1
+    return kept, dropped
